@@ -464,6 +464,9 @@ def o5(prog, tier="quick"):
             return repr(self.m_values.items)
     hooks = {
         "method:size": lambda ev, o, a: len(o.items),
+        "method:operator[]": lambda ev, o, a: o.items[int(a[0])] if 0 <= int(a[0]) < len(o.items) else (_ for _ in ()).throw(Broken("operator[] outside the compared vector")),
+        "method:at": lambda ev, o, a: o.items[int(a[0])] if 0 <= int(a[0]) < len(o.items) else (_ for _ in ()).throw(Broken("at() outside the compared vector")),
+        "method:empty": lambda ev, o, a: not o.items,
         "method:begin": lambda ev, o, a: _It(o, 0),
         "method:end": lambda ev, o, a: _It(o, len(o.items)),
         "method:cbegin": lambda ev, o, a: _It(o, 0),
